@@ -14,7 +14,7 @@ EXTENDS Integers, Sequences, TLC, Json, IOUtils
 VARIABLES d
 
 Ends == {"null", "int", "bool", "arr", "false", "zero", "arr0"}     \* the last three: the falsy / empty values of each kind (a parent is absent only when it is null)
-Defs == {"", "m", "+", "g", "s", "m+gs", "M", "G", "a", ">", "F", "mF"}     \* F: a FIELD named m (fields and methods are separate namespaces), mF: both a field m and a method m; M: m with two parameters, G: get without parameters (overriding with a different parameter count), a: a method named add (a Feeny spelling used as an ordinary name)
+Defs == {"", "m", "+", "g", "s", "m+gs", "M", "G", "a", ">", "F", "mF", "0"}     \* 0: a level without any member at all (not even the tag field every other level has): still an object of its own; F: a FIELD named m (fields and methods are separate namespaces), mF: both a field m and a method m; M: m with two parameters, G: get without parameters (overriding with a different parameter count), a: a method named add (a Feeny spelling used as an ordinary name)
 \* (operators with a parameter: TLC evaluates every parameterless constant definition when it starts, needed or not)
 Chains(maxdepth) == UNION {[1..n -> Defs] : n \in 0..maxdepth}
 Calls == {"m1", "m0", "m2", "plus", "and", "index", "setindex", "get", "set", "zz", "field", "fieldm", "eqnull", "ne5", "feq", "fneq", "add1", "plus0", "plus2", "lt3", "gt1", "ge1", "plus_stmt", "m1_stmt", "setindex_stmt"}    \* _stmt: the call in statement position, its value discarded (it must still be dispatched)
@@ -27,7 +27,7 @@ Value == {<<"value", v, k1, k2>> : v \in {"int", "bool", "null"}, k1 \in Kinds \
 \* so that the full product (290 000 descriptors, 80 s) is only enumerated in the thorough tier.
 Quick == "STRIDE" \in DOMAIN IOEnv
 Offset == IF "OFFSET" \in DOMAIN IOEnv THEN CHOOSE k \in 0..199 : ToString(k) = IOEnv.OFFSET ELSE 0
-DefSeq == <<"", "m", "+", "g", "s", "m+gs", "M", "G", "a", ">", "F", "mF">>
+DefSeq == <<"", "m", "+", "g", "s", "m+gs", "M", "G", "a", ">", "F", "mF", "0">>
 CallSeq == <<"m1", "m0", "m2", "plus", "and", "index", "setindex", "get", "set", "zz", "field", "fieldm", "eqnull", "ne5", "feq", "fneq", "add1", "plus0", "plus2", "lt3", "gt1", "ge1", "plus_stmt", "m1_stmt", "setindex_stmt">>
 EndSeq == <<"null", "int", "bool", "arr", "false", "zero", "arr0">>
 Idx(seq, v) == CHOOSE i \in 1..Len(seq) : seq[i] = v
